@@ -638,7 +638,9 @@ class Model:
         orphans0 = set(orphans)
         # ---- delete cascade, evaluated on the graph as it is now
         changed = True
-        open_ = m.open or (bool(dele) and any(o.life == "D" and o.dbpk is not None for o in m.objs.values()))
+        # a detached object whose row still exists: persistent neighbours may hold it or a freshly loaded anonymous copy of
+        # its row, depending on what was loaded when -- the rows of such a flush are not predicted
+        open_ = m.open or any(o.life == "D" and o.dbpk is not None for o in m.objs.values())
         while changed:
             changed = False
             for x in sorted(dele):
@@ -693,7 +695,7 @@ class Model:
                     continue
                 p = m.parent(l, n)
                 if n in dele:
-                    if p is not None and p in dele and o.life == "S" and m.rows[l.table].get(o.dbpk, {}).get(l.fk) != m.objs[p].dbpk:
+                    if p is not None and p in dele and o.life == "S" and (m.rows[l.table].get(o.dbpk, {}).get(l.fk) != m.objs[p].dbpk or (l.name, n) in m.reltouched):
                         open_ = True  # joined a parent that is being deleted: the cascade may not see it
                     continue
                 if p is not None and p in dele:
